@@ -276,14 +276,10 @@ class FortranAST:
                     added_entities = []
                     # A scope cannot become a child of itself or of one of its own
                     # descendants (an INCLUDE inside included content that leads
-                    # back to the including file)
-                    enclosing = []
-                    scope = parent_scope
-                    while scope is not None and not any(scope is i for i in enclosing):
-                        enclosing.append(scope)
-                        scope = scope.parent
+                    # back to the including file). Included content can hang below
+                    # several includers, so the children are followed, not the parents
                     for child in include_ast.inc_scope.children:
-                        if any(child is i for i in enclosing):
+                        if self._contains_scope(child, parent_scope):
                             continue
                         added_entities.append(child)
                         if parent_scope is not None:
@@ -298,6 +294,21 @@ class FortranAST:
                         parent_scope.children.remove(obj)
                 inc.scope_objs = []
                 inc.file = None
+
+    @staticmethod
+    def _contains_scope(root, target) -> bool:
+        """Whether target is root or one of the objects below it"""
+        pending = [root]
+        seen = set()
+        while pending:
+            obj = pending.pop()
+            if obj is target:
+                return True
+            if id(obj) in seen:
+                continue
+            seen.add(id(obj))
+            pending.extend(getattr(obj, "children", []))
+        return False
 
     def resolve_links(self, obj_tree, link_version):
         # Declared types are looked up lazily and cached: the cached object may
